@@ -142,7 +142,7 @@ def k_assign_history(ctx, w, seed):
     f = U.UnsignedByteField(v, w)
     ops = []
     for step in range(r.randrange(2, 8)):
-        op = r.choice(("hash", "dict", "assign_int", "assign_bytes", "assign_bytearray_long", "eq"))
+        op = r.choice(("hash", "dict", "assign_int", "assign_bytes", "assign_bytearray_long", "assign_bytearray_exact", "refused_int", "refused_bytes", "eq"))
         ops.append(op)
         if op == "hash":
             hash(f)
@@ -154,9 +154,23 @@ def k_assign_history(ctx, w, seed):
         elif op == "assign_bytes":
             v = rand_uint(r, 8 * w)
             f.value = v.to_bytes(w, "big")
-        elif op == "assign_bytearray_long":
+        elif op in ("assign_bytearray_long", "assign_bytearray_exact"):
             v = rand_uint(r, 8 * w)
-            f.value = bytearray(v.to_bytes(w, "big") + r.randbytes(r.randrange(1, 4)))
+            buf = bytearray(v.to_bytes(w, "big") + (r.randbytes(r.randrange(1, 4)) if op == "assign_bytearray_long" else b""))
+            f.value = buf
+            for i_ in range(len(buf)):          # the caller's (receive) buffer is re-used afterwards
+                buf[i_] ^= 0xFF
+        elif op == "refused_int":
+            bad = r.choice((-1, 1 << 8 * w, (1 << 8 * w) + r.getrandbits(8 * w + 3), -(1 << 8 * w), (1 << 8 * w + 4) - 1, 1 << 8 * w + 8))
+            ok, e = attempt(setattr, f, "value", bad)
+            if not ctx.check("field.assign_history", (not ok) and isinstance(e, ValueError), "out_of_range_assignment_not_refused", f"w={w}", dict(case, ops=ops), observed=repr(e), value=bad):
+                return
+        elif op == "refused_bytes":
+            if w == 0:
+                continue
+            ok, e = attempt(setattr, f, "value", r.randbytes(r.randrange(0, w)))
+            if not ctx.check("field.assign_history", (not ok) and isinstance(e, ValueError), "short_octet_assignment_not_refused", f"w={w}", dict(case, ops=ops), observed=repr(e)):
+                return
         fresh = U.UnsignedByteField(v, w)
         views = (bytes(f.as_bytes), int(f), len(f), f.value, f.hex_str)
         exp = (v.to_bytes(w, "big"), v, w, v, _hex_str(v, w))
